@@ -204,8 +204,9 @@ claim('C02', 'Lean theorems: whole-path round trip encode_msg -> sentences -> de
       'C02_encode_dict (encode_dict with `type` or `msg_type` is create followed by encode_msg), C02_create (create '
       'with all fields given builds exactly those values), C02_quantisation_positions/_decode/_tenths (encode rounds '
       'positions to the nearest wire step, at most half a step; decode yields the nearest six-decimal number; tenths '
-      'are truncated toward zero, less than one step), C02_representable_fixed (wire-representable values come back '
-      'unchanged); known findings F15-F26 carry kernel-checked witnesses. Tie: encode_dict / encode_msg / decode of '
+      'are truncated toward zero, less than one step), C02_position_field / C02_tenths_field (the same laws as '
+      'statements about the field codec of the model: to_bitarray writes the nearest / truncated wire value, '
+      'from_bitarray reads it back), C02_representable_fixed (wire-representable values come back unchanged); known findings F15-F26 carry kernel-checked witnesses. Tie: encode_dict / encode_msg / decode of '
       'pyais vs the model on seeded in-range assignments of all 35 classes via `type`, `msg_type` and create(); pyais '
       'is checked directly against expected values computed from the standard.',
       FLOAT_NOTE + 'The theorems quantify over wire-representable values (the image of decoding, characterised on the '
